@@ -208,6 +208,91 @@ def normalise_module(relpath: str, tree: ast.Module) -> list[str]:
     return notes
 
 
+def _abs_module(rel: str, level: int, mod: str | None) -> str:
+    name = rel[:-3].replace(os.sep, ".")
+    package = name[: -len(".__init__")] if name.endswith(".__init__") else name.rsplit(".", 1)[0]
+    if level == 0:
+        return mod or ""
+    parts = package.split(".")
+    base_ = parts[: len(parts) - (level - 1)]
+    return ".".join(base_ + (mod.split(".") if mod else []))
+
+
+def normalise_program(trees: dict[str, ast.Module]) -> dict[str, list[str]]:
+    """normalise_module for every unit, plus inlining of NEW module-level helpers across module boundaries (a helper defined in
+    one unit and imported by another is un-refactored at its call sites there too)."""
+    from .inline import inline_new_helpers
+    from .canon import canonicalise
+
+    from . import inline as _inline
+
+    _inline._SERIAL[0] = 0
+    base = baseline()
+    notes: dict[str, list[str]] = {rel: [] for rel in trees}
+    known_of: dict[str, set[str] | None] = {}
+    exports: dict[str, dict[str, T.Any]] = {}
+    class_exports: dict[str, dict[str, ast.ClassDef]] = {}
+    known_classes: dict[str, set[str] | None] = {}
+    for rel, tree in trees.items():
+        b = base.get(rel)
+        known = set(b["__functions__"]) if b and b.get("__functions__") is not None else (set() if b is None else None)
+        known_of[rel] = known
+        if known is None:
+            continue
+        mod = rel[:-3].replace(os.sep, ".")
+        mod = mod[: -len(".__init__")] if mod.endswith(".__init__") else mod
+        exports[mod] = {n.name: n for n in tree.body if isinstance(n, FUNC_KINDS) and n.name not in known and not n.name.startswith("__")}
+        kc = set(b["__classes__"]) if b and b.get("__classes__") is not None else (set() if b is None else None)
+        known_classes[rel] = kc
+        class_exports[mod] = {c.name: c for c in tree.body if isinstance(c, ast.ClassDef) and kc is not None and c.name not in kc}
+        for c in class_exports[mod].values():
+            c._methods = [m for m in c.body if isinstance(m, FUNC_KINDS)]  # type: ignore[attr-defined]   (before the unit's own pass drops unreferenced ones)
+            for m in c._methods:  # type: ignore[attr-defined]
+                m._in_class = True  # type: ignore[attr-defined]
+        if b is not None:
+            notes[rel] += [f"{rel}: {n}" for n in inline_new_helpers(tree, known)]
+    for rel, tree in trees.items():
+        if known_of.get(rel) is None:
+            continue
+        extern: dict[str, tuple[T.Any, str, ast.Module]] = {}
+        for st in tree.body:
+            if isinstance(st, ast.ImportFrom):
+                src_mod = _abs_module(rel, st.level, st.module)
+                for a in st.names:
+                    fn = exports.get(src_mod, {}).get(a.name)
+                    if fn is not None:
+                        src_rel = next(r for r in trees if (r[:-3].replace(os.sep, ".")) in (src_mod, src_mod + ".__init__"))
+                        extern[a.asname or a.name] = (fn, src_mod, trees[src_rel])
+                    cls = class_exports.get(src_mod, {}).get(a.name)
+                    if cls is not None and a.asname is None:
+                        src_rel = next(r for r in trees if (r[:-3].replace(os.sep, ".")) in (src_mod, src_mod + ".__init__"))
+                        for m in cls._methods:  # type: ignore[attr-defined]
+                            if not m.name.startswith("__"):
+                                extern[m.name] = (m, src_mod, trees[src_rel])
+        if extern:
+            notes[rel] += [f"{rel}: {n}" for n in inline_new_helpers(tree, known_of[rel] or set(), extern=extern)]
+    from .records import scalarise
+
+    for rel, ns in scalarise(trees, known_classes, _abs_module).items():
+        notes[rel] += ns
+    for rel, tree in trees.items():
+        b = base.get(rel)
+        if not b:
+            continue
+        g = b.get("__globals__")
+        canonicalise(tree, set(g) if g is not None else None)
+        for cls_name, node in _functions(tree):
+            key = f"{cls_name}.{node.name}" if cls_name else node.name
+            bb = b.get(key)
+            if not bb:
+                continue
+            m = rename_map(node, bb)
+            if m:
+                apply(node, m)
+                notes[rel].append(f"{rel}:{key}: locals alpha-renamed to baseline names {m}")
+    return notes
+
+
 def _functions(tree: ast.Module) -> T.Iterator[tuple[str, T.Any]]:
     for n in tree.body:
         if isinstance(n, FUNC_KINDS):
@@ -243,6 +328,7 @@ def generate(root: str) -> dict[str, T.Any]:
                     entry[key] = [[n, s] for n, s in sigs]
             entry["__functions__"] = sorted(names)
             entry["__globals__"] = module_globals
+            entry["__classes__"] = sorted(c.name for c in ast.walk(tree) if isinstance(c, ast.ClassDef))
             out[rel] = entry
     return out
 
